@@ -42,6 +42,8 @@ Step ==
                ELSE Flag("publish@" \o E.kind)
        [] E.ev = "Panic" -> UNCHANGED <<pat, serial>> /\ Flag("panic@" \o pat)
        [] E.ev = "Hang" -> UNCHANGED <<pat, serial>> /\ Flag("hang@" \o pat)
+       \* the process died inside the library (fatal error / unrecovered panic / signal while the tasks were running)
+       [] E.ev = "Fatal" -> UNCHANGED <<pat, serial>> /\ Flag("fatal@" \o pat)
        [] E.ev = "Race" -> UNCHANGED <<pat, serial>> /\ Flag("race")
        [] OTHER -> UNCHANGED <<pat, serial, bad, cnt>>
 Spec == Init /\ [][Step]_vars
